@@ -27,8 +27,16 @@ const NActors = 8
 // Actor addresses are deterministic.
 func ActorAddr(i int) sdk.AccAddress {
 	h := sha256.Sum256([]byte(fmt.Sprintf("verif-actor-%d", i)))
+	if i == LongActor {
+		// a 32-byte account address, the length of every derived account (group policy accounts — which
+		// hold class admin and issuer roles on the real chain —, module sub-accounts, interchain accounts)
+		return sdk.AccAddress(h[:])
+	}
 	return sdk.AccAddress(h[:20])
 }
+
+// LongActor is the index of the actor whose address is 32 bytes long instead of 20.
+const LongActor = 3
 
 func Actors() []string {
 	var out []string
